@@ -192,13 +192,20 @@ pub fn run(cfg: &Cfg) {
             continue;
         }
         let mut base: Vec<String> = Vec::new();
+        let c05 = cfg.space == "c05";
         for t in &txts {
             for pos in boundaries(t) {
                 let a = s.caps(&b, t, pos, false, 1_000_000);
+                if c05 {
+                    check_answer_c05(&mut s, p, t, pos, &a);
+                }
                 if inject {
                     base.push(a);
                 }
                 s.count("caps");
+            }
+            if c05 {
+                entry_points_c05(&mut s, b.re.as_ref().unwrap(), p, t);
             }
         }
         let _ = base;
@@ -206,20 +213,164 @@ pub fn run(cfg: &Cfg) {
     s.finish();
 }
 
+fn check_answer_c05(s: &mut Session, p: &str, t: &str, pos: usize, a: &str) {
+    let mut bad: Option<String> = None;
+    if a == "panic" {
+        bad = Some("panic".to_string());
+    } else if let Some(rest) = a.strip_prefix("m ") {
+        for (g, pair) in rest.split(' ').enumerate() {
+            if pair == "-" {
+                continue;
+            }
+            let mut it = pair.split(',');
+            let x: Option<usize> = it.next().and_then(|v| v.parse().ok());
+            let y: Option<usize> = it.next().and_then(|v| v.parse().ok());
+            match (x, y) {
+                (Some(x), Some(y)) if x <= y && y <= t.len() && t.is_char_boundary(x) && t.is_char_boundary(y) => {
+                    if g == 0 && x < pos {
+                        bad = Some(format!("match starts at {} before the search position {}", x, pos));
+                    }
+                }
+                _ => bad = Some(format!("group {} has invalid span {}", g, pair)),
+            }
+        }
+    }
+    if let Some(b) = bad {
+        s.violation(
+            "C05",
+            "invalid-result",
+            &[("pattern", p.to_string()), ("text", t.to_string()), ("pos", pos.to_string()), ("answer", a.to_string()), ("detail", b)],
+        );
+    }
+}
+
 /// C07: the same pattern under a ladder of backtrack limits
 fn run_limits(s: &mut Session, p: &str, txts: &[String], limits: &[usize]) {
-    for &l in limits {
+    // answers[limit index][case index] = (answer, backtracks)
+    let mut answers: Vec<Vec<(String, u64)>> = Vec::new();
+    let mut cases: Vec<(String, usize)> = Vec::new();
+    for (li, &l) in limits.iter().enumerate() {
         let o = Opts { limit: Some(l), ..Opts::default() };
         let b = s.pattern(p, &o, false, false);
         if b.re.is_none() {
             return;
         }
+        let mut row = Vec::new();
         for t in txts {
             // fewer offsets: start and one inner boundary
             let bs = boundaries(t);
             for &pos in bs.iter().take(2) {
-                s.caps(&b, t, pos, false, l);
+                let a = s.caps(&b, t, pos, false, l);
+                row.push((a, s.last_stats.1));
+                if li == 0 {
+                    cases.push((t.clone(), pos));
+                }
                 s.count("caps");
+            }
+        }
+        answers.push(row);
+    }
+    // the statement on the implementation: with limit L the answer is the limit error or the
+    // unlimited answer; it is the unlimited answer for every L >= the backtracks that run needs
+    let top = answers.len() - 1;
+    for k in 0..cases.len() {
+        let (full, need) = answers[top][k].clone();
+        if full == "err:limit" {
+            continue;
+        }
+        if full == "err:stack" || full == "panic" {
+            s.violation(
+                "C07",
+                "runtime-error-at-default-limit",
+                &[("pattern", p.to_string()), ("text", cases[k].0.clone()), ("pos", cases[k].1.to_string()), ("answer", full.clone())],
+            );
+            continue;
+        }
+        for (li, &l) in limits.iter().enumerate() {
+            let (a, _) = &answers[li][k];
+            let ok = if (l as u64) >= need { *a == full } else { a == "err:limit" };
+            if !ok {
+                s.violation(
+                    "C07",
+                    "limit-not-faithful",
+                    &[
+                        ("pattern", p.to_string()),
+                        ("text", cases[k].0.clone()),
+                        ("pos", cases[k].1.to_string()),
+                        ("limit", l.to_string()),
+                        ("answer", a.clone()),
+                        ("unlimited_answer", full.clone()),
+                        ("backtracks_needed", need.to_string()),
+                    ],
+                );
+                break;
+            }
+        }
+    }
+}
+
+/// C05: every public search entry point returns normally and reports valid spans
+fn entry_points_c05(s: &mut Session, re: &fancy_regex::Regex, p: &str, t: &str) {
+    use std::panic::{catch_unwind, AssertUnwindSafe};
+    let r = catch_unwind(AssertUnwindSafe(|| {
+        let bad: std::cell::RefCell<Vec<String>> = std::cell::RefCell::new(Vec::new());
+        let chk = |what: &str, a: usize, b: usize| {
+            if a > b || b > t.len() || !t.is_char_boundary(a) || !t.is_char_boundary(b) {
+                bad.borrow_mut().push(format!("{}: span ({},{}) in text of length {}", what, a, b, t.len()));
+            }
+        };
+        let _ = re.is_match(t);
+        if let Ok(Some(m)) = re.find(t) {
+            chk("find", m.start(), m.end());
+            let _ = m.as_str();
+        }
+        let cap = t.len() + 3;
+        for (i, m) in re.find_iter(t).enumerate() {
+            if i > cap {
+                bad.borrow_mut().push("find_iter does not terminate".to_string());
+                break;
+            }
+            if let Ok(m) = m {
+                chk("find_iter", m.start(), m.end());
+                let _ = m.as_str();
+            }
+        }
+        for (i, c) in re.captures_iter(t).enumerate() {
+            if i > cap {
+                bad.borrow_mut().push("captures_iter does not terminate".to_string());
+                break;
+            }
+            if let Ok(c) = c {
+                for g in 0..c.len() {
+                    if let Some(m) = c.get(g) {
+                        chk("captures_iter group", m.start(), m.end());
+                        let _ = m.as_str();
+                        let _ = &c[g];
+                    }
+                }
+            }
+        }
+        for (i, piece) in re.split(t).enumerate() {
+            if i > cap + 1 {
+                bad.borrow_mut().push("split does not terminate".to_string());
+                break;
+            }
+            let _ = piece;
+        }
+        for piece in re.splitn(t, 2) {
+            let _ = piece;
+        }
+        let _ = re.try_replacen(t, 0, "x");
+        let _ = re.try_replacen(t, 1, "[$0$1]");
+        let _ = re.try_replacen(t, 0, |c: &fancy_regex::Captures<'_>| c.get(0).map(|m| m.as_str().to_string()).unwrap_or_default());
+        bad.into_inner()
+    }));
+    s.count("entry_point_cases");
+    match r {
+        Err(_) => s.violation("C05", "panic", &[("pattern", p.to_string()), ("text", t.to_string()), ("detail", "a search entry point panicked".to_string())]),
+        Ok(bad) => {
+            for b in bad {
+                s.violation("C05", "invalid-span", &[("pattern", p.to_string()), ("text", t.to_string()), ("detail", b)]);
             }
         }
     }
